@@ -118,6 +118,7 @@ def handle (ws : List String) : String :=
       | "1" | "3" | "tostring" | "tostring-call" => "halted;rest:ok;follow:ok"
       | "2" => "returned:returned;then:1,<nil>;rest:ok;follow:ok"
       | "closed" => "returned:110,<nil>;rest:ok;follow:ok"
+      | "rethrow-error" => "returned:RangeError,true,TypeError,true,ReferenceError,<nil>;rest:ok;follow:ok"
       | _ => "bad-op"
     if t = "bad-op" then t else t ++ " " ++ t ++ " -"
   | ["reenter", _k, _vars, _prog] =>
